@@ -372,6 +372,12 @@ pub fn near_mate_from_walks(rng: &mut Rng, starts: &[Pos], want: usize, tries: u
 }
 
 pub fn check_root(root: &Root, classes: &[Class], depth: u8, h: &ZobristHasher, acc: &mut Acc, sample: bool) {
+    check_root_with(root, classes, depth, h, acc, sample, None)
+}
+
+/// `exact`: distance-to-mate tables for three-man roots - every mate claim is then decided,
+/// whatever its length (the budgeted solver stops at three moves).
+pub fn check_root_with(root: &Root, classes: &[Class], depth: u8, _h: &ZobristHasher, acc: &mut Acc, sample: bool, exact: Option<&crate::oracle::dtm::Dtm>) {
     let p = &root.hist.end;
     let fen = p.to_fen();
     let r = run_search(&root.board, &root.table, None, depth);
@@ -436,7 +442,18 @@ pub fn check_root(root: &Root, classes: &[Class], depth: u8, h: &ZobristHasher, 
                     }
                 }
                 if let Score::Mate(n) = info.score {
-                    if n > 0 {
+                    let table = exact.and_then(|d| d.mate_in_moves(p).ok());
+                    if n > 0 && table.is_some() {
+                        let truth = table.unwrap();
+                        acc.count("positive_mate_claims_decided_by_table", 1);
+                        if n > 3 {
+                            acc.feature("mate_claim_longer_than_3_decided_exactly");
+                        }
+                        match truth {
+                            Some(t) if t <= n as u32 => acc.count("positive_mate_claims_confirmed", 1),
+                            _ => acc.violation(format!("C11|false-mate|{}|D{}|{}", fen, info.depth, n), format!("{}: line claims mate in {} but the shortest forced mate takes {} (exact distance-to-mate table): {:?}", fen, n, truth.map(|t| format!("{} moves", t)).unwrap_or_else(|| "for ever: the side to move cannot force mate".into()), l), lcase.clone()),
+                        }
+                    } else if n > 0 {
                         if n <= 3 {
                             match solver.mate_in(p, n as u32) {
                                 Some(true) => acc.count("positive_mate_claims_confirmed", 1),
@@ -463,7 +480,13 @@ pub fn check_root(root: &Root, classes: &[Class], depth: u8, h: &ZobristHasher, 
         if let Score::Mate(n) = info.score {
             if n < 0 {
                 let lcase = json!({"kind": "search", "property": "C11", "position_command": root.hist.command(), "root_fen": fen, "depth_limit": depth, "line": l});
-                if n.abs() <= 3 {
+                if let Some(truth) = exact.and_then(|t| t.mated_in_moves(p).ok()) {
+                    acc.count("negative_mate_claims_decided_by_table", 1);
+                    match truth {
+                        Some(t) if t <= n.unsigned_abs() as u32 => acc.count("negative_mate_claims_confirmed", 1),
+                        _ => acc.violation(format!("C11|false-mated|{}|D{}|{}", fen, d, n), format!("{}: completed depth {} ends with {:?} but against best play the side to move is mated in {} (exact distance-to-mate table)", fen, d, l, truth.map(|t| format!("{} moves", t)).unwrap_or_else(|| "no number of moves: it is not lost".into())), lcase),
+                    }
+                } else if n.abs() <= 3 {
                     match solver.mated_in(p, n.unsigned_abs() as u32) {
                         Some(true) => acc.count("negative_mate_claims_confirmed", 1),
                         Some(false) => acc.violation(format!("C11|false-mated|{}|D{}|{}", fen, d, n), format!("{}: completed depth {} ends with {:?} but the side to move is not mated within {} moves against best play", fen, d, l, n.abs()), lcase),
@@ -520,7 +543,7 @@ pub fn check_root(root: &Root, classes: &[Class], depth: u8, h: &ZobristHasher, 
 
 pub fn run(tier: Tier, seed: u64) -> i32 {
     let mut run = Run::new("C11", tier, seed, "exploration");
-    run.rule = "evaluation = one real search (virtual clock, all iterations up to the limit complete) on a root near mate or stalemate, judged by the oracle's full-width mate solver: (1) mate-in-1 roots: the move standing after every completed iteration mates; (2) roots where some but not all moves allow a mate in one: the move standing after iterations 2 and 3 is not one of them; (3) every line `mate N`, 0<N<=3, requires a forced mate in <= N; `mate -N` on the last line of a completed depth requires mated-in-N; (4) a line reporting on a move that stalemates the opponent must not carry a mate score. Roots: sampled endgame families (KQK, KRK, KRRK, KBBK, KBNK, KQKR, pawn endings, ...) biased to edge/corner kings, sparse material with a cornered king hemmed in by its own men (minor piece against minor piece, pawn or rook: smothered and corner mates), mates in one that only an under-promotion gives, zugzwang-prone corner endings (king behind its rook pawn against king and knight with tempo pawns, searched to depth 10), positions 1-5 plies before a checkmate in oracle-driven games with full material, the library's mate/stalemate entries. Black box: the same two clauses for the move PLAYED by the real binary under slices of 1-20 ms - a violation needs an info line of depth >= 2 (>= 3) whose own time field lies below the plan, i.e. the first (second) iteration had finished before the allowance ended. Non-trivial = root classified mate-in-1 / avoidable mate / mated soon / stalemate trap; distinct by (root FEN, depth limit)".into();
+    run.rule = "evaluation = one real search (virtual clock, all iterations up to the limit complete) on a root near mate or stalemate, judged by the oracle's full-width mate solver: (1) mate-in-1 roots: the move standing after every completed iteration mates; (2) roots where some but not all moves allow a mate in one: the move standing after iterations 2 and 3 is not one of them; (3) every line `mate N`, 0<N<=3, requires a forced mate in <= N; `mate -N` on the last line of a completed depth requires mated-in-N; (4) a line reporting on a move that stalemates the opponent must not carry a mate score. Roots: sampled endgame families (KQK, KRK, KRRK, KBBK, KBNK, KQKR, pawn endings, ...) biased to edge/corner kings, sparse material with a cornered king hemmed in by its own men (minor piece against minor piece, pawn or rook: smothered and corner mates), mates in one that only an under-promotion gives, three-man endings K+Q / K+R / K+P v K (men placed uniformly, true distance 4-7 moves) searched to depth 8-10 with EVERY mate claim, of any length, decided by exact distance-to-mate tables the oracle builds from its own rules (retrograde-style forward iteration; longest mates 10, 16 and 28 moves as published), zugzwang-prone corner endings (king behind its rook pawn against king and knight with tempo pawns, searched to depth 10), positions 1-5 plies before a checkmate in oracle-driven games with full material, the library's mate/stalemate entries. Black box: the same two clauses for the move PLAYED by the real binary under slices of 1-20 ms - a violation needs an info line of depth >= 2 (>= 3) whose own time field lies below the plan, i.e. the first (second) iteration had finished before the allowance ended. Non-trivial = root classified mate-in-1 / avoidable mate / mated soon / stalemate trap; distinct by (root FEN, depth limit)".into();
     run.assumptions = vec![
         "negative mate claims are judged only on the last line of a completed depth (intermediate lines describe the first move tried, not the position)".into(),
         "claims with |N| > 3 or beyond the solver's node budget are counted as unchecked, not decided".into(),
@@ -617,6 +640,61 @@ pub fn run(tier: Tier, seed: u64) -> i32 {
                 check_root(&root, &cl, 10, &h, &mut acc, false);
             }
         }
+        // three-man endings (K+Q, K+R, K+P v K, either colour, either side to move) searched to
+        // depth 10 (Q, R) / 9 (P), every mate claim decided by the exact tables
+        {
+            let dtm = crate::oracle::dtm::dtm();
+            let mut made = 0;
+            let mut tries = 0;
+            let want = std::env::var("VERIF_C11_THREE_MAN").ok().and_then(|v| v.parse().ok()).unwrap_or(tier.pick(2usize, 12));
+            while made < want && tries < 4000 {
+                tries += 1;
+                let kind = *rng.pick(&[Kind::Queen, Kind::Queen, Kind::Rook, Kind::Rook, Kind::Pawn]);
+                let att = if rng.chance(1, 2) { Color::White } else { Color::Black };
+                let stm = if rng.chance(3, 4) { att } else { att.other() };
+                // uniformly placed men (not the edge-biased sampler): the long mates live in the
+                // middle of the board, and a claim can only be too short where the truth is long
+                let mut p = Pos::empty();
+                let (a, b, c) = (rng.below(64) as usize, rng.below(64) as usize, rng.below(64) as usize);
+                if a == b || a == c || b == c || (kind == Kind::Pawn && (c < 8 || c >= 56)) {
+                    continue;
+                }
+                p.sq[a] = Some((att, Kind::King));
+                p.sq[b] = Some((att.other(), Kind::King));
+                p.sq[c] = Some((att, kind));
+                p.stm = stm;
+                if !is_legal_position(&p) || legal_moves(&p).is_empty() {
+                    continue;
+                }
+                // true distance 4..7 moves (the iterations up to the limit can see that far), or a draw now and then
+                let dist = match dtm.probe(&p) {
+                    Ok(Some((_, plies))) => Some((plies + 1) / 2),
+                    Ok(None) => None,
+                    Err(_) => continue,
+                };
+                match dist {
+                    Some(d) if (4..=7).contains(&d) => {}
+                    None if rng.chance(1, 12) => {}
+                    _ => continue,
+                }
+                let cl = classify(&p);
+                let hist = History { start: p.clone(), moves: vec![], end: p.clone() };
+                if let Ok(root) = make_root(hist, &h) {
+                    made += 1;
+                    acc.count("three_man_roots_judged_by_exact_tables", 1);
+                    match dtm.probe(&p) {
+                        Ok(Some((_, plies))) => {
+                            acc.max("longest_true_mate_among_three_man_roots_plies", plies as u64);
+                            if plies >= 9 {
+                                acc.feature("three_man_root_with_true_mate_of_5_or_more_moves");
+                            }
+                        }
+                        _ => acc.feature("three_man_root_drawn"),
+                    }
+                    check_root_with(&root, &cl, if kind == Kind::Pawn { tier.pick(8, 9) } else { tier.pick(9, 10) }, &h, &mut acc, false, Some(dtm));
+                }
+            }
+        }
         for (i, (p, cl)) in roots.into_iter().enumerate() {
             let pieces = p.sq.iter().filter(|x| x.is_some()).count();
             let hist = History { start: p.clone(), moves: vec![], end: p };
@@ -633,7 +711,7 @@ pub fn run(tier: Tier, seed: u64) -> i32 {
         acc
     });
     for a in results {
-        run.acc.merge(a, &[]);
+        run.acc.merge(a, &["longest_true_mate_among_three_man_roots_plies"]);
     }
     // the move played by the real binary under short slices
     {
